@@ -71,6 +71,10 @@ def quick():
     # own point nearest to the aligned value
     c.append(Cfg("two_tol_forward_dep", (DS("ds1", T2, (0.0, 1.0, 2.0)), DS("ds2", T3, (-0.8, 0.3, 1.4, 2.6), scale=True)), megacomplexes=M1D, groups={"default": (True, VP)}, tol=0.9, method="forward"))
     c.append(Cfg("two_tol_dense_second", (DS("ds1", T2, (1.0, 2.0, 3.0)), DS("ds2", T2, (1.4, 1.5, 3.0), weight=True)), megacomplexes=M1D, groups={"default": (True, VP)}, tol=0.45))
+    # linked within a tolerance: interval items are evaluated at the *aligned* value (1.0), not at the raw value of a member (1.04)
+    c.append(Cfg("linked_tol_interval_at_aligned_value", (DS("ds1", T2, (0.0, 1.0, 2.0)), DS("ds2", T3, (0.04, 1.04, 2.04), scale=True)), megacomplexes={"m1": (("s1", "s2", "s3"), False)}, constraints=(("zero", "s2", (0.9, 1.02)),), relations=(("s1", "s3", (1.9, 2.02)),), groups={"default": (True, VP)}, tol=0.1))
+    # a square dataset stored as (global, model) in a linked group, weighted
+    c.append(Cfg("two_linked_gm_square", (DS("ds1", T3, (0.0, 1.0, 2.0)), DS("ds2", T2, (1.0, 2.0, 3.0), order="gm", weight=True)), groups={"default": (True, VP)}))
     # dataset groups declared interleaved: d1 -> default, d2 -> g2, d3 -> default
     c.append(Cfg("groups_interleaved", (DS("ds1", T2, (0.0, 1.0), scale=True), DS("ds2", T2, (0.0, 1.0), group="g2"), DS("ds3", T3, (1.0, 2.0))), groups={"default": (False, VP), "g2": (False, VP)}))
     c.append(Cfg("groups_interleaved_linked", (DS("ds1", T2, (0.0, 1.0)), DS("ds2", T2, (0.0, 1.0), group="g2", weight=True), DS("ds3", T3, (1.0, 2.0), scale=True)), groups={"default": (True, VP), "g2": (None, NNLS)}))
